@@ -161,16 +161,103 @@ def mapLocs (rec : LHeap → MLoc → Option (MLoc × LHeap)) (h : LHeap) (src :
   let locs := mk h src.len src.len
   (mapLoop2 rec src locs.1 src.len 0 locs.2).map fun h' => (locs.1, h')
 
-/-- `Location.Expand(i, n)` (location.go:259, 312, 484, 573 for the contiguous kinds — values;
-801-807 `Joined`; 924-930 `Ordered`; 973-975 `Complemented`) -/
-def expandMem (g : Grow) (i n : Int) : Nat → LHeap → MLoc → Option (MLoc × LHeap)
+/-- the common shape of `Expand`, `Shift`, `Normalize` (location.go:792-807, 783-789 `Joined`;
+915-930, 906-912 `Ordered`; 963-975 `Complemented`): `leafM` is the method of the contiguous
+kinds (plain values in, a value — or a `Join` / `Order` of two new values — out) -/
+def methMem (leafM : Nat → LHeap → Loc → Option (MLoc × LHeap)) (g : Grow) :
+    Nat → LHeap → MLoc → Option (MLoc × LHeap)
   | 0, _, _ => none
-  | _ + 1, h, .leaf l => some (.leaf (l.expand i n), h)
+  | k + 1, h, .leaf l => leafM k h l
   | k + 1, h, .joined s =>
-    (mapLocs (expandMem g i n k) h s).bind fun r => joinLocs g (k + 1) r.2 r.1
+    (mapLocs (methMem leafM g k) h s).bind fun r => joinLocs g (k + 1) r.2 r.1
   | k + 1, h, .ordered s =>
-    (mapLocs (expandMem g i n k) h s).bind fun r => orderLocs g (k + 1) r.2 r.1
-  | k + 1, h, .compl m => (expandMem g i n k h m).map fun r => (.compl r.1, r.2)
+    (mapLocs (methMem leafM g k) h s).bind fun r => orderLocs g (k + 1) r.2 r.1
+  | k + 1, h, .compl m => (methMem leafM g k h m).map fun r => (.compl r.1, r.2)
+
+/-- `Location.Expand(i, n)`; the contiguous kinds (location.go:259, 312, 484, 573) return a value -/
+def expandMem (g : Grow) (i n : Int) : Nat → LHeap → MLoc → Option (MLoc × LHeap) :=
+  methMem (fun _ h l => some (.leaf (l.expand i n), h)) g
+
+/-- `Shift(i, n)` of a contiguous kind (location.go:254, 307, 456-481, 551-570): a value, except
+for a `Ranged` / `Ambiguous` that is split by an insertion strictly inside it —
+`return Join(left, right)` / `return Order(left, right)` over the two new values (the variadic call
+builds the slice `[]Location{left, right}`) -/
+def shiftLeaf (g : Grow) (i n : Int) (k : Nat) (h : LHeap) (l : Loc) : Option (MLoc × LHeap) :=
+  match l with
+  | .ranged s e p5 p3 =>
+    if 0 < n ∧ s < i ∧ i < e then
+      let a := litSlice h [.leaf (.ranged s i p5 false), .leaf (.ranged (i + n) (e + n) false p3)]
+      joinLocs g k a.2 a.1
+    else some (.leaf (l.shift i n), h)
+  | .ambiguous s e =>
+    if 0 < n ∧ s < i ∧ i < e then
+      let a := litSlice h [.leaf (.ambiguous s i), .leaf (.ambiguous (i + n) (e + n))]
+      orderLocs g k a.2 a.1
+    else some (.leaf (l.shift i n), h)
+  | l => some (.leaf (l.shift i n), h)
+
+/-- `Location.Shift(i, n)` -/
+def shiftMem (g : Grow) (i n : Int) : Nat → LHeap → MLoc → Option (MLoc × LHeap) :=
+  methMem (shiftLeaf g i n) g
+
+/-- `Normalize(length)` of a contiguous kind (location.go:249, 302, 437-453, 546): a value, except
+for a `Ranged` that wraps around the origin — `return Join(left, right)` -/
+def normalizeLeaf (g : Grow) (len : Int) (k : Nat) (h : LHeap) (l : Loc) : Option (MLoc × LHeap) :=
+  match l with
+  | .ranged s e p5 p3 =>
+    if e - s ≠ len ∧ ¬ (Int.tmod s len < Int.tmod (e - 1) len + 1) then
+      let a := litSlice h [.leaf (.ranged (Int.tmod s len) len p5 false),
+        .leaf (.ranged 0 (Int.tmod (e - 1) len + 1) false p3)]
+      joinLocs g k a.2 a.1
+    else some (.leaf (l.normalize len), h)
+  | l => some (.leaf (l.normalize len), h)
+
+/-- `Location.Normalize(length)` -/
+def normalizeMem (g : Grow) (len : Int) : Nat → LHeap → MLoc → Option (MLoc × LHeap) :=
+  methMem (normalizeLeaf g len) g
+
+/-- the loop of `Joined.Reverse` / `Ordered.Reverse` (location.go:776-778, 899-901):
+```go
+for l, r := 0, len(ll)-1; l <= r; l, r = l+1, r-1 {
+    ll[l], ll[r] = v[r].Reverse(length), v[l].Reverse(length)
+}
+```
+`l <= r` holds for exactly `⌈len/2⌉` iterations (`cnt`); the two calls are made in this order,
+then the two stores (for the middle element of an odd length both calls are made and the second
+store wins) -/
+def revLoop (rec : LHeap → MLoc → Option (MLoc × LHeap)) (src dst : Slice) :
+    Nat → Nat → Nat → LHeap → Option LHeap
+  | 0, _, _, h => some h
+  | cnt + 1, l, r, h =>
+    match load h src r with
+    | some ur =>
+      (rec h ur).bind fun a =>
+        match load a.2 src l with
+        | some ul =>
+          (rec a.2 ul).bind fun b =>
+            revLoop rec src dst cnt (l + 1) (r - 1) (store (store b.2 dst l a.1) dst r b.1)
+        | none => none
+    | none => none
+
+/-- `Location.Reverse(length)` (location.go:244, 297, 425, 541 values; 774-780; 897-903; 958) -/
+def reverseMem (g : Grow) (len : Int) : Nat → LHeap → MLoc → Option (MLoc × LHeap)
+  | 0, _, _ => none
+  | _ + 1, h, .leaf l => some (.leaf (l.reverse len), h)
+  | k + 1, h, .joined s =>
+    let ll := mk h s.len s.len
+    (revLoop (reverseMem g len k) s ll.1 ((s.len + 1) / 2) 0 (s.len - 1) ll.2).bind fun h' =>
+      joinLocs g (k + 1) h' ll.1
+  | k + 1, h, .ordered s =>
+    let ll := mk h s.len s.len
+    (revLoop (reverseMem g len k) s ll.1 ((s.len + 1) / 2) 0 (s.len - 1) ll.2).bind fun h' =>
+      orderLocs g (k + 1) h' ll.1
+  | k + 1, h, .compl m => (reverseMem g len k h m).map fun r => (.compl r.1, r.2)
+
+/-- `Location.Complement()` (location.go:239, 292, 420, 536, 769, 892, 953): wraps the receiver —
+`Complemented{joined}` holds the receiver's own slice — or unwraps it; nothing is allocated -/
+def complementMem : MLoc → MLoc
+  | .compl m => m
+  | m => .compl m
 
 /-- the location part of the loop body of `gts.Slice` (sequence.go:276-279):
 ```go
